@@ -262,6 +262,7 @@ func (z zeroer) IsZero() bool { return z.A == 5 }
 type plain struct{ A int }
 
 func main() {
+	ev.GuardFor("C20")
 	r := ev.Start("C20")
 	e = &enum.E{R: r}
 	// ---- 8-bit types: every pair and every triple
